@@ -437,4 +437,153 @@ class HistoryArm(Arm):
         return {"nodes": case["init"]["spec"]["nodes"], "dup": case["init"].get("dup"), "ops": case["ops"]}
 
 
-ARMS = [HistoryArm()]
+# ----------------------------------------------------------------------------------------------------------------------
+# edge attribute dictionaries that carry values for edge-operator variables
+# ----------------------------------------------------------------------------------------------------------------------
+class EdgeValuesArm(Arm):
+    """nodes x' = -k*x + inp; edges either plain or through ONE shared EdgeTemplate (m = g*tanh(cc*s)); values for g / cc
+    come from the template-level operator variations, from the edge attribute dictionaries given at construction and from
+    update_var(edge_vars=...).  Reference: dx_t = -k*x_t + sum_e w_e * g_e * tanh(cc_e * x_s)."""
+    name = "edge_values"
+    budget = {"quick": 400, "thorough": 5000}
+    min_per_shard = 10
+    required_labels = ("shared_edge_template", "per_edge_operator_value", "update_var_edge_operator_value", "vec", "novec")
+
+    def strategy(self, ctx):
+        @st.composite
+        def case(draw):
+            n = draw(st.integers(2, 4))
+            pairs = [(i, j) for i in range(n) for j in range(n)]
+            chosen = draw(st.lists(st.sampled_from(pairs), min_size=1, max_size=5, unique=True))
+            val = st.sampled_from([0.7, 1.3, -0.4, 2.1, 0.25])
+            edges = []
+            for (i, j) in chosen:
+                tmpl = draw(st.sampled_from([True, True, False]))
+                ev = {}
+                if tmpl:
+                    for key in ("eop/g", "eop/cc"):
+                        if draw(st.integers(0, 2)) == 0:
+                            ev[key] = draw(val)
+                edges.append({"s": i, "t": j, "w": draw(st.sampled_from([2.0, 0.5, -1.5, 1.0])), "tmpl": tmpl, "ev": ev})
+            upd = []
+            templ = [k_ for k_, e in enumerate(edges) if e["tmpl"]]
+            for _ in range(draw(st.integers(0, 2))):
+                if templ:
+                    upd.append({"e": draw(st.sampled_from(templ)), "key": draw(st.sampled_from(["eop/g", "eop/cc", "weight"])),
+                                "val": draw(val)})
+            return {"n": n, "edges": edges, "tv": draw(st.sampled_from([{}, {}, {"g": 1.1}, {"cc": 0.6, "g": 0.9}])),
+                    "updates": upd, "vectorize": draw(st.booleans()), "same_keys": draw(st.booleans())}
+        from ..finding_predicates import repair_case
+        return case()
+
+    def run(self, case, ctx):
+        from .. import isolate
+        from ..findings import excluded_by
+        from pyrates import CircuitTemplate, EdgeTemplate, NodeTemplate, OperatorTemplate
+        res = CaseResult()
+        case = copy.deepcopy(case)
+        if case.get("same_keys"):
+            # every templated edge names the same set of keys (values default to the template's)
+            keys = sorted({k_ for e in case["edges"] for k_ in e["ev"]})
+            dflt = {"eop/g": case["tv"].get("g", 1.5), "eop/cc": case["tv"].get("cc", 0.8)}
+            for e in case["edges"]:
+                if e["tmpl"]:
+                    for k_ in keys:
+                        e["ev"].setdefault(k_, dflt[k_])
+        n, vec = case["n"], bool(case["vectorize"])
+        # the same network in the spec format, so that the predicates of the listed findings (C01/C04 shapes) apply
+        case["cfg"] = {"vectorize": vec}
+        case["spec"] = {"ops": {"nop": {"vars": [["x", "state", 0.5], ["k", "const", 2.0], ["inp", "input", 0.0]],
+                                        "eqs": [["x", True, ["bin", "+", ["bin", "*", ["neg", ["var", "k"]], ["var", "x"]],
+                                                             ["var", "inp"]], 1]], "out": "x"}},
+                        "ntypes": {"nt": {"ops": ["nop"], "ov": {}}}, "nodes": [[f"p{i}", "nt"] for i in range(n)],
+                        "edges": [{"s": f"p{e['s']}/nop/x", "t": f"p{e['t']}/nop/inp", "w": e["w"], "d": None, "sp": None,
+                                   "et": None, "scope": ""} for e in case["edges"]], "etypes": {}}
+        ex = excluded_by("C07", case, ctx)
+        # plain edges and edges through the template are grouped separately by the vectorisation
+        all_edges = case["spec"]["edges"]
+        for sel in (False, True):
+            if ex:
+                break
+            case["spec"]["edges"] = [se for se, e in zip(all_edges, case["edges"]) if bool(e["tmpl"]) == sel]
+            ex = excluded_by("C07", case, ctx)
+        case["spec"]["edges"] = all_edges
+        if ex:
+            res.excluded = ex
+            return res
+        isolate.reset()
+        nop = OperatorTemplate(name="nop", path=None, equations=["d/dt * x = -k*x + inp"],
+                               variables={"x": "output(0.5)", "k": 2.0, "inp": "input(0.0)"})
+        eop = OperatorTemplate(name="eop", path=None, equations=["m = g*tanh(cc*s)"],
+                               variables={"m": "output(0.0)", "g": 1.5, "cc": 0.8, "s": "input(0.0)"})
+        nt = NodeTemplate(name="nt", path=None, operators=[nop])
+        et = EdgeTemplate(name="et", path=None, operators={eop: dict(case["tv"])} if case["tv"] else [eop])
+        x0 = [round(0.3 + 0.27 * i, 3) for i in range(n)]
+        edges = []
+        for e in case["edges"]:
+            d = {"weight": e["w"]}
+            d.update(e["ev"])
+            edges.append((f"p{e['s']}/nop/x", f"p{e['t']}/nop/inp", et if e["tmpl"] else None, d))
+        model = [dict(w=e["w"], g=e["ev"].get("eop/g", case["tv"].get("g", 1.5)), cc=e["ev"].get("eop/cc", case["tv"].get("cc", 0.8)))
+                 for e in case["edges"]]
+        lab = ["vec" if vec else "novec"]
+        if sum(1 for e in case["edges"] if e["tmpl"]) >= 2:
+            lab.append("shared_edge_template")
+        if any(e["ev"] for e in case["edges"]):
+            lab.append("per_edge_operator_value")
+        try:
+            with warnings.catch_warnings():
+                warnings.simplefilter("ignore")
+                circ = CircuitTemplate(name="net", path=None, nodes={f"p{i}": nt for i in range(n)}, edges=edges)
+                circ.update_var(node_vars={f"p{i}/nop/x": x0[i] for i in range(n)})
+                for u in case["updates"]:
+                    e = case["edges"][u["e"]]
+                    circ.update_var(edge_vars=[(f"p{e['s']}/nop/x", f"p{e['t']}/nop/inp", {u["key"]: u["val"]})])
+                    model[u["e"]][{"eop/g": "g", "eop/cc": "cc", "weight": "w"}[u["key"]]] = u["val"]
+                    if u["key"] != "weight":
+                        lab.append("update_var_edge_operator_value")
+                func, args, names, svm = circ.get_run_func("pv_c07e", step_size=DT, vectorize=vec, in_place=False, clear=True,
+                                                           verbose=False, float_precision="float64")
+                y0 = np.asarray(args[1], dtype=float).ravel()
+                out = np.array(func(0, y0.copy(), np.zeros_like(np.asarray(args[2])), *args[3:]), dtype=float).ravel()
+        except HarnessError:
+            raise
+        except Exception as e:
+            res.labels = sorted(set(lab))
+            res.violate(exc_bucket(f"raises:{'vec' if vec else 'novec'}", e),
+                        f"edges {[(e_['s'], e_['t'], e_['tmpl'], e_['ev']) for e_ in case['edges']]} template values {case['tv']} "
+                        f"updates {case['updates']}: {short_exc(e)}")
+            return res
+        res.labels = sorted(set(lab))
+        res.nontrivial = "shared_edge_template" in lab and ("per_edge_operator_value" in lab or "update_var_edge_operator_value" in lab)
+        want = []
+        for i in range(n):
+            v = -2.0 * x0[i]
+            for e, m_ in zip(case["edges"], model):
+                if e["t"] == i:
+                    v += m_["w"] * (m_["g"] * np.tanh(m_["cc"] * x0[e["s"]]) if e["tmpl"] else x0[e["s"]])
+            want.append(v)
+        got = []
+        for i in range(n):
+            key = f"p{i}/nop/x"
+            if key in svm:
+                got.append(float(out[_idx(svm[key])]))
+            else:
+                allk = [k_ for k_ in svm if k_.endswith("nop/x")]
+                ix = svm[allk[0]]
+                got.append(float(out[int(ix[0]) + i]) if isinstance(ix, (tuple, list)) else float("nan"))
+            if abs(float(y0[_idx(svm[key])] if key in svm else x0[i]) - x0[i]) > 1e-12:
+                res.violate("wrong-initial-value", f"{key}: y0 differs from the value set by update_var")
+                return res
+        if np.max(np.abs(np.array(got) - np.array(want))) > 1e-9 * (1 + np.max(np.abs(want))):
+            res.violate(f"wrong-vector-field:{'vec' if vec else 'novec'}",
+                        f"dx = {got}, reference {want}; edges (s, t, template, w, g, cc) "
+                        f"{[(e['s'], e['t'], e['tmpl'], m_['w'], m_['g'], m_['cc']) for e, m_ in zip(case['edges'], model)]}; "
+                        f"attribute dicts {[e['ev'] for e in case['edges']]}, template values {case['tv']}, updates {case['updates']}")
+        return res
+
+    def sample(self, case):
+        return case
+
+
+ARMS = [HistoryArm(), EdgeValuesArm()]
